@@ -547,6 +547,13 @@ func ToPoly(t *Term) *Poly {
 		if t.Sym == "-" && isIntegerType(t.Typ) {
 			return polyConst(0).Add(ToPoly(t.Args[0]), -1)
 		}
+	case "builtin":
+		// len of a window x[lo:hi] is hi - lo, of make([]T, n) is n
+		if t.Sym == "len" && len(t.Args) == 1 && t.Args[0] != nil && (t.Args[0].Op == "slice" || t.Args[0].Op == "mkslice") {
+			if k := knownLen(t.Args[0]); k != nil && !(k.Op == "builtin" && k.Sym == "len" && len(k.Args) == 1 && k.Args[0] == t.Args[0]) {
+				return ToPoly(k)
+			}
+		}
 	}
 	return polyAtom(t)
 }
